@@ -331,6 +331,11 @@ func ruleC04Verify(rule string) ruleFn {
 			for _, leaf := range phiInputs(idx[0]) {
 				r := R.V(leaf)
 				pos := r == "*" || strings.HasPrefix(r, "count{") || strings.HasPrefix(r, "(+count{")
+				if bo, ok := leaf.(*ssa.BinOp); ok && bo.Op == token.ADD && R.V(bo.Y) == "1" {
+					if _, isPhi := bo.X.(*ssa.Phi); isPhi {
+						pos = true // the increment of the scan's own position
+					}
+				}
 				if !pos && r != "0" {
 					return false
 				}
@@ -640,7 +645,14 @@ func ruleC05Monitor(rule string) ruleFn {
 			for _, r := range Returns(fn) {
 				p, ok := strip(r.Results[0]).(*ssa.Phi)
 				if !ok {
-					if !sameValue(r.Results[0], fn.Params[1]) {
+					if isNilConst(strip(r.Results[0])) {
+						// `return nil` written out: the return itself sits behind the Mode == RW edge
+						ge := atomEdges(fn, R, `+"RW" -$0.replicas[*].Mode ==0`)
+						rr := r
+						if len(Query{Fn: fn, IsSite: func(in ssa.Instruction) bool { return in == ssa.Instruction(rr) }, GenEdge: ge}.Run()) > 0 {
+							phiOK = false
+						}
+					} else if !sameValue(r.Results[0], fn.Params[1]) {
 						phiOK = false
 					}
 					continue
@@ -1062,8 +1074,9 @@ func ruleC09(c *Ctx) {
 				}
 			case "key($0.RegisteredReplicas)":
 				c.Guard(rule, fn, []ssa.Instruction{s}, "leader := greater entry", nil,
-					atom("entry has strictly greater RevCount than current leader", "-$0.RegisteredReplicas[$0.MaxRevReplica].RevCount +$0.RegisteredReplicas[key($0.RegisteredReplicas)].RevCount -1 >=0"),
-					atom("entry is not rebuilding", `+"rebuilding" -$0.RegisteredReplicas[key($0.RegisteredReplicas)].RepState !=0`))
+					// the entry under the iteration's key, or the iteration's value (`for k, v := range M`)
+					atom("entry has strictly greater RevCount than current leader", "-$0.RegisteredReplicas[$0.MaxRevReplica].RevCount +$0.RegisteredReplicas[key($0.RegisteredReplicas)].RevCount -1 >=0", "-$0.RegisteredReplicas[$0.MaxRevReplica].RevCount +$0.RegisteredReplicas[*].RevCount -1 >=0"),
+					atom("entry is not rebuilding", `+"rebuilding" -$0.RegisteredReplicas[key($0.RegisteredReplicas)].RepState !=0`, `+"rebuilding" -$0.RegisteredReplicas[*].RepState !=0`))
 			default:
 				c.Bad(rule, key, c.P.InstrPos(s), "unexpected leader value "+v, nil)
 			}
@@ -1071,7 +1084,7 @@ func ruleC09(c *Ctx) {
 		// the election loop exists
 		loop := false
 		for _, ea := range allAtoms(fn, R) {
-			if ea.Atom.String() == "-$0.RegisteredReplicas[$0.MaxRevReplica].RevCount +$0.RegisteredReplicas[key($0.RegisteredReplicas)].RevCount -1 >=0" {
+			if as := ea.Atom.String(); as == "-$0.RegisteredReplicas[$0.MaxRevReplica].RevCount +$0.RegisteredReplicas[key($0.RegisteredReplicas)].RevCount -1 >=0" || as == "-$0.RegisteredReplicas[$0.MaxRevReplica].RevCount +$0.RegisteredReplicas[*].RevCount -1 >=0" {
 				loop = true
 			}
 		}
